@@ -70,7 +70,7 @@ void ir_vp_shared(void *p, u64 n){
 #endif
 
 /* ---- allocation: operator new/delete = malloc/free; allocation failure out of scope ---- */
-u64 vp_objsz[1024];
+u64 vp_objsz[VP_NOBJ];
 static inline void *vp_alloc(u64 n){ __CPROVER_assert(n <= VP_HEAP_MAX, "BOUND:heap block larger than VP_HEAP_MAX"); __CPROVER_assume(n <= VP_HEAP_MAX); void *p = malloc(VP_HEAP_MAX); __CPROVER_assume(p != 0); vp_objsz[__CPROVER_POINTER_OBJECT(p)] = n + 1; return p; }
 #ifdef NEED_ir__Znwm
 void *ir__Znwm(u64 n){ return vp_alloc(n); }
